@@ -7,6 +7,63 @@ V = os.path.dirname(os.path.dirname(os.path.abspath(__file__)))
 props = [json.loads(l) for l in open(os.path.join(V, 'properties.jsonl'))]
 
 CLAIMED = {
+    'C01': dict(
+        text='ISA.tla/Decode.tla specify the data-processing instructions (all 16 ARM opcodes in immediate, register and '
+             'register-shifted-register form, MOVW/MOVT, ADR, the 16-bit Thumb shift/add/sub/mov/cmp, data-processing and '
+             'high-register forms, the 32-bit Thumb modified-immediate, shifted-register and plain-immediate forms) from '
+             'the ARM ARM pseudocode on top of the TLC-checked limb arithmetic; seeded random (encoding, fields, full '
+             'register file, NZCVQ/GE, IT state, mode, arch 4..7, cond) events are executed by the real emulate_cycle() '
+             'with a real fetch and every event is judged by TLC (Trace_Step) on the complete post-state, so "nothing '
+             'else changed" is checked on every event.',
+        note='operand values are sampled (corner-biased + uniform), not enumerated; encodings the specification marks '
+             'UNPREDICTABLE are judged by the envelope clauses only; the oracle is my transcription of the ARM ARM.',
+        technique='TLA+ machine specification + TLC trace validation of recorded emulate_cycle() events',
+        ref='DESIGN.md §4 C01'),
+    'C05': dict(
+        text='MC_Cond: TLC checks for all 16x16 (cond, NZCV) that the ConditionPassed pseudocode equals the 16-row table. '
+             'Negative path: ARM words under every failing (cond, NZCV) pair, every 16-bit Thumb word (quick: every 4th) '
+             'and random 32-bit Thumb words inside an IT block whose condition fails are executed by the real code; TLC '
+             'requires the delta to be exactly {PC += len, IT advanced} (or UNDEFINED / not-implemented), with no '
+             'per-instruction semantics needed. Positive path: the same word under a passing condition and under AL from '
+             'the same state must have the same delta (pair events compared by TLC).',
+        note='words are all 2^16 16-bit encodings plus random/pattern 32-bit words, not every encoding class; encodings '
+             'the implementation itself flags UNPREDICTABLE get the envelope only.',
+        technique='TLC model checking of the condition table + TLC trace validation (NOP-on-failed-condition relation)',
+        ref='DESIGN.md §4 C05'),
+    'C10': dict(
+        text='MC_Regs: TLC explores all histories (depth 2 quick / 3 thorough) of register writes by current mode and by '
+             'explicit mode, SPSR writes and mode switches, and checks that the LookUpRName table agrees with a ghost '
+             'model written from the prose banking rule, that a write changes one physical cell and a mode switch none. '
+             'Every TLC-generated behaviour (BFS depth 2 + simulated depth 8) is replayed on the real Registers object '
+             'comparing all 34+7 cells and public reads after each action. Range: Trace_Step evaluates "all registers, '
+             'CPSR, SPSRs, ELR in 0..2^32-1" on every event of wide sweeps with code and pointers at both ends of the '
+             'address space.',
+        note='register values are tokens in the banking model (banking is value-agnostic); the range invariant is checked '
+             'on sampled instruction words and states; exception entry/return histories are covered by C11/C12.',
+        technique='TLC model checking of the banking model + replay of TLC behaviours on the implementation + trace validation',
+        ref='DESIGN.md §4 C10'),
+    'C18': dict(
+        text='All 2^16 16-bit Thumb words (quick: one IT position per word; thorough: outside/inside/last), random and '
+             'pattern-filled ARM and 32-bit Thumb words and random multi-instruction programs are stepped by the real '
+             'emulate_cycle() in modes usr/svc/fiq/mon on PMSA v6, PMSA v7, VMSA v7 and no-security-extension '
+             'configurations with the MPU off and permissive-on; TLC (Trace_Step) accepts an event only if its outcome is '
+             'one of the specification\'s outcome classes (completed, undef, svc, smc, dabort, hyptrap, notimpl) - a '
+             'host error has no action - and, where the step is specified, the right one.',
+        note='ARM and 32-bit Thumb words are sampled (cube representatives are added once the C06/C07 partition exists); '
+             'NotImplementedError is accepted from any mock hook.',
+        technique='TLA+ outcome-class trace specification + exhaustive enumeration of the 16-bit space',
+        ref='DESIGN.md §4 C18'),
+    'C19': dict(
+        text='UserConfined (Trace_Step.tla) - from User mode the post-state is User mode with A/I/F, all banked '
+             'registers, SPSRs, ELR_hyp and every system register unchanged, or a privileged mode at an exception vector '
+             'with SPSR.M = User - is evaluated by TLC on the implementation\'s own pre/post state for all 2^16 16-bit '
+             'Thumb words, random/pattern ARM and Thumb-32 words and random programs started in User mode, secure and '
+             'non-secure, MPU off/on, on four configurations. It needs no per-instruction oracle, so it covers '
+             'unspecified and UNPREDICTABLE encodings too.',
+        note='32-bit words are sampled; unprivileged load/store variants against privileged-only regions are part of C14.',
+        technique='TLA+ confinement invariant evaluated by TLC trace validation on every User-mode event',
+        ref='DESIGN.md §4 C19'),
+
     'C17': dict(
         text='TLC proves, for every operand at widths 1..8 and every shift amount 0..255, that the bit-string '
              'transcription of each ARM pseudocode primitive equals its arithmetic formulation (MC_BV), and that the '
